@@ -142,6 +142,38 @@ var c14Failures = []struct{ kind, text string }{
 	{"schema-block", "extend schema { mutation: NopeTypeZz }"},
 }
 
+// c14DynamicFailures builds failing documents that depend on the base schema: extensions that fail part-way (a valid
+// member before a duplicate one), and documents that define a not yet present default root operation type but fail validation.
+func c14DynamicFailures(r *rand.Rand, base *model.Schema, tag string) []struct{ kind, text string } {
+	var out []struct{ kind, text string }
+	add := func(k, t string) { out = append(out, struct{ kind, text string }{k, t}) }
+	for _, t := range base.Types {
+		switch t.Kind {
+		case model.Object:
+			if len(t.Fields) > 0 && r.Intn(2) == 0 {
+				add("partial-extend", fmt.Sprintf("extend type %s { fresh%s: Int %s: Int }", t.Name, tag, t.Fields[r.Intn(len(t.Fields))].Name))
+			}
+		case model.Enum:
+			add("partial-extend", fmt.Sprintf("extend enum %s { FRESH%s %s }", t.Name, strings.ToUpper(tag), t.Values[r.Intn(len(t.Values))].Name))
+		case model.Input:
+			add("partial-extend", fmt.Sprintf("extend input %s { fresh%s: Int %s: Int }", t.Name, tag, t.Inputs[r.Intn(len(t.Inputs))].Name))
+		case model.Union:
+			add("partial-extend", fmt.Sprintf("type FreshU%s { a: Int }\nextend union %s = FreshU%s | %s", tag, t.Name, tag, t.Members[0]))
+		case model.Interface:
+			if len(t.Fields) > 0 {
+				add("partial-extend", fmt.Sprintf("extend interface %s { fresh%s: Int %s: Int }", t.Name, tag, t.Fields[0].Name))
+			}
+		}
+	}
+	for _, rootName := range []string{"Mutation", "Subscription"} {
+		if base.Type(rootName) == nil && !base.ExplicitSchema {
+			add("late-root-then-invalid", fmt.Sprintf("type %s { m%s: Int }\ninterface IfZz%s { a: Int }\ntype BadImplZz%s implements IfZz%s { b: Int }", rootName, tag, tag, tag, tag))
+			add("late-root-then-invalid", fmt.Sprintf("type %s { m%s: Int }\ntype EmptyZz%s { }", rootName, tag, tag))
+		}
+	}
+	return out
+}
+
 func runC14(c *run.Ctx) {
 	c.Rule = "histories on a root with a generated, loaded schema: 3-8 loads mixing failing documents (syntax, undefined reference, failing extend, validation rule, duplicate, bad schema block - each placed after 0-4 valid " +
 		"definitions including extend of existing types and schema blocks), readers failing at sampled offsets of valid documents, failing AddTypes calls, and valid loads; oracle: the observation vector (printed SDL, " +
@@ -180,6 +212,9 @@ func runC14(c *run.Ctx) {
 			switch k := r.Intn(10); {
 			case k < 5: // failing document after some valid content
 				f := c14Failures[r.Intn(len(c14Failures))]
+				if dyn := c14DynamicFailures(r, base, tag); len(dyn) > 0 && r.Intn(3) == 0 {
+					f = dyn[r.Intn(len(dyn))]
+				}
 				prefix := c14ValidFragments(r, base, tag, r.Intn(5))
 				if len(prefix) > 0 {
 					nontriv = true
